@@ -464,7 +464,11 @@ def run(rep, tier, rng):
             if role == "type":
                 names = [n for n in names if not n.startswith("r#")]
             if tier == "quick" and role in ("field", "variant"):
-                names = names[ri % 3::3]       # bindings derived from field / variant names carry a reserved prefix; thinner sweep
+                # bindings derived from field / variant names carry a reserved prefix: thinner sweep - but the names the
+                # property lists, and the short ones the expander itself uses, are tried on every base (a position-based
+                # thinning alone made the sweep depend on the order of the harvested dictionary)
+                always = [n for n in names if n in CLASSIC or len(n) <= 2]
+                names = always + [n for n in names[ri % 3::3] if n not in always]
             for k, name in enumerate(names):
                 mapping = {toks[k % len(toks)]: name}
                 ct = C.Case(f"w{len(sweep)}", apply_map(b["code"], mapping), {"base": bi, "kind": "rename", "mapping": mapping})
